@@ -48,6 +48,10 @@ fn cases() -> Vec<CaseP> {
         (G::Conj(vec![G::Eq(x.clone(), T::list(vec![y.clone(), T::I(7)])), G::Conde(vec![vec![G::Eq(y.clone(), T::I(1))], vec![G::Eq(y.clone(), T::I(2))]])]), 2),
         (G::Closure(Box::new(G::Conde(vec![vec![G::Eq(x.clone(), T::I(5))], vec![G::Eq(x.clone(), T::I(6))]]))), 2),
         (G::Disj(vec![G::Eq(x.clone(), T::I(1)), G::Eq(x.clone(), T::I(1))]), 2),
+        // the projected variable aliased to another variable first, the value arriving later
+        (G::Conj(vec![G::Eq(x.clone(), y.clone()), G::Eq(y.clone(), T::I(7))]), 1),
+        (G::Conj(vec![G::Eq(y.clone(), x.clone()), G::Eq(T::V(5), y.clone()), G::Eq(T::V(5), T::I(3))]), 1),
+        (G::Conj(vec![G::Eq(x.clone(), y.clone()), G::Eq(y.clone(), T::list(vec![T::V(5), T::I(2)])), G::Eq(T::V(5), T::I(1))]), 1),
     ];
     let bodies: Vec<Vec<G>> = vec![
         vec![G::Eq(q.clone(), x.clone())],
@@ -84,11 +88,12 @@ fn check(c: &CaseP, index: usize) -> (Vec<Violation>, &'static str) {
     crate::ev::progress("c11", index, &Value::Null);
     let sig = c.program.to_string();
     let mk = |kind: &str, detail: String, site: String| Violation { kind: kind.into(), sig: sig.clone(), site, detail, family: "c11".into(), index, schedule: vec![], data: Value::Null };
-    let nvars = crate::run::nvars_of(2, &c.program.body).max(5);
+    let nvars = crate::run::nvars_of(2, &c.program.body).max(6);
     // probe 0: the projected x (variable index 1 in the body's environment) is a ground integer
     let probe: ProbeFn<DU, DE> = Rc::new(|env: &Env<DU, DE>, st: State<DU, DE>| {
         let x: &LTerm<DU, DE> = &env.vars[1];
-        if x.is_number() {
+        // the projected value is fully walked: a number, or a list of numbers
+        if x.is_number() || (x.is_list() && x.iter().all(|e| e.is_number())) {
             Some(st)
         } else {
             None
@@ -126,7 +131,7 @@ fn check(c: &CaseP, index: usize) -> (Vec<Violation>, &'static str) {
 }
 
 pub fn run(ctx: &mut Ctx) {
-    ctx.set("rule", json!("E3: 7 generators that reach the project goal with 1..4 states (bindings, conde of 2-4 arms, nested conde, a partially bound list completed per branch, a generator behind a closure, a binary Disj reaching it twice with the same value) x 7 bodies (q == x; q == [x, x]; an fngoal that inspects the projected term structurally; the read delayed behind a closure; a conde of reads; a branching body whose read is delayed; doubly delayed) x 4 nestings. Oracle: for ground values `project |x| { body }` has the answers of `body`; no panic. distinct_nontrivial = cases whose project goal is reached by >= 2 states."));
+    ctx.set("rule", json!("E3: 10 generators that reach the project goal with 1..4 states (bindings, conde of 2-4 arms, nested conde, a partially bound list completed per branch, a generator behind a closure, a binary Disj reaching it twice with the same value, the projected variable aliased to another variable whose value arrives later - directly, through a chain, as a list) x 7 bodies (q == x; q == [x, x]; an fngoal that inspects the projected term structurally; the read delayed behind a closure; a conde of reads; a branching body whose read is delayed; doubly delayed) x 4 nestings. Oracle: for ground values `project |x| { body }` has the answers of `body`; no panic. distinct_nontrivial = cases whose project goal is reached by >= 2 states."));
     let cs = cases();
     let sel: Vec<usize> = match &ctx.replay {
         Some(r) if r.family == "c11" => vec![r.index],
